@@ -17,6 +17,7 @@ TYPES = [("i8", "int8_t", 0), ("u8", "uint8_t", 0), ("i16", "int16_t", 0), ("u16
          ("i32", "int32_t", 0), ("u32", "uint32_t", 0), ("i64", "int64_t", 0), ("u64", "uint64_t", 0),
          ("f32", "float", 1), ("f64", "double", 1), ("f80", "long double", 1)]
 
+C07_QUICK_EXTRA = {("i32", "f64"), ("i32", "u8"), ("i32", "i64"), ("f64", "i32"), ("u8", "i32"), ("i64", "u64")}
 KINDMAP = {"arithmetic_error": "K_arithmetic_error", "bad_any_cast": "K_bad_any_cast"}
 
 HEADER = r'''
@@ -250,7 +251,7 @@ def build(prop, tier="quick"):
     r.add("R7.ct", r"\bCommon_Types::(\w+)", r"Common_Types_\1", min_fire=8)
     c = chai2c.contracts_for(contracts, "get_common_type", prop)
     kb.emit_function("int get_common_type(size_t t_size, bool t_signed)", sl, r, c.fn, c.loops, "get_common_type")
-    kb.add('void h_get_common_type(void) { size_t s; bool g; get_common_type(s, g); VERIF_CANARY("returns"); }')
+    kb.add('void h_get_common_type(void) { size_t s; bool g = verif_nondet_bool(); get_common_type(s, g); VERIF_CANARY("returns"); }')
     kb.targets.append(Target("get_common_type", "h_get_common_type"))
 
     # --- go<LHS,RHS>
@@ -263,6 +264,8 @@ def build(prop, tier="quick"):
         for rs, rt, rf in TYPES:
             name = "go_%s_%s" % (ls, rs)
             bothint = 0 if (lf or rf) else 1
+            if prop == "C07" and tier == "quick" and not (ls == rs or (ls, rs) in C07_QUICK_EXTRA):
+                continue  # the same contracts (frame clauses included) are enforced for all 121 pairs by C05 and by C07's thorough tier
             kb = KernelBuild("number_go_%s_%s" % (ls, rs), prop)
             units.append(kb)
             kb.add(HEADER)
